@@ -103,6 +103,18 @@ def collect(t, rnd):
     pairs += list(zip(rp[0::2], rp[1::2]))
     nt = near_threshold_pairs(rnd, 1500 if t == "quick" else 20000)
     pairs += nt
+    # different colours of (almost) the same luminance: neighbours in a luminance-sorted sample
+    samp = sorted(gen_colours(rnd, 20000 if t == "quick" else 200000), key=refs.wcag_lum)
+    iso = [(a, b) for a, b in zip(samp, samp[1:]) if a != b and abs(refs.wcag_lum(a) - refs.wcag_lum(b)) < 3e-6]
+    pairs += iso[: (800 if t == "quick" else 12000)]
+    # colours that collide under a sloppy integer packing ((r*255+g)*255+b and the like): a channel at 255 against 0 with the
+    # neighbouring channel one apart - very different colours
+    coll = []
+    for _ in range(150 if t == "quick" else 3000):
+        r_, x_ = rnd.randrange(255), rnd.randrange(256)
+        coll += [((r_, 255, x_), (r_ + 1, 0, x_)), ((x_, r_, 255), (x_, r_ + 1, 0)), ((r_, 255, 255), (r_ + 1, 0, 0)),
+                 ((r_, x_, 255), (r_, min(255, x_ + 1), 0))]
+    pairs += coll
     if f_ratio:
         for a, b in pairs:
             obs.append({"k": "ratio", "a": list(a), "b": list(b), "ab6": fl(f_ratio(a, b), 1e6),
@@ -124,7 +136,7 @@ def collect(t, rnd):
             for large in (False, True):
                 obs.append({"k": "level", "pt": [n, d, off], "large": large, "lvl": str(f_level(x, large))})
     # ---- pair-level API on threshold-bracketing and random pairs
-    pl = nt[: (600 if t == "quick" else 6000)] + list(zip(rp[0:400:2], rp[1:400:2]))
+    pl = nt[: (600 if t == "quick" else 6000)] + list(zip(rp[0:400:2], rp[1:400:2])) + coll[: (200 if t == "quick" else 2000)]
     for idx, (a, b) in enumerate(pl):
         large = bool(idx & 1)
         lvl = str(f_wcag(a, b, large)) if f_wcag else ""
